@@ -11,7 +11,7 @@ LEVEL_TEXT = ("Dataflow rules on the MIR: (N1 freshness) every attribute set tha
               "handlers and the config copy/builders, and `lazy` only by execute_into: nothing else can depend on them; the builders keep "
               "every field they do not set (lazy(..).debug_attributes(..) commute); (N3 content/parity) the attributes written are the "
               "variable's text, `line row+1 column column+1` of the variable / edge statement location, and the stanza's full-match node in "
-              "the mode's own index space, identically in strict and lazy mode.")
+              "the mode's own index space (including every ExecutionContext initialiser of the full-match index, C03's E3.x typestate), identically in strict and lazy mode.")
 LEVEL_NOTE = ("Not decided: equality of the two graphs after deleting the debug attributes over all programs; that the parser's locations are "
               "the right ones is C07's clause (E7.l).")
 
@@ -223,6 +223,13 @@ def run(prog, rep):
             pass
     C07._ORD.clear()
     C07.run(prog, OnlyL(rep))
+    # the match-node attribute reads exec.full_match_*_capture_index: every ExecutionContext must be built with the index of
+    # the mode's own space (C03's index-space typestate, restricted to the full-match fields)
+    from . import C03
+    from ..lib.report import Filtered
+    n_before = len(rep.items)
+    C03.index_space(prog, Filtered(rep, lambda rule, key: "full_match" in key))
+    rep.floor("E3.x", len(rep.items) - n_before, 16, "full-match index initialisations")
     # lazy: the collected attribute set is what a new edge receives
     fl = [f for f in prog.fns.values() if f.self_path == "tsg::execution::lazy::statements::LazyCreateEdge" and f.name == "evaluate"]
     if len(fl) == 1:
